@@ -1,7 +1,7 @@
 (* C07 — global references stay bound to the same global across edits.  Statements only. *)
 From Coq Require Import List Arith NArith Bool.
 Import ListNotations.
-From Orca Require Import Util Reindex Reorg ReidxProofs CheckReidx SelfReidx.
+From Orca Require Import Util Reindex Reorg ReidxProofs CheckReidx SelfReidx GenRefers RefersThm.
 Local Open Scope N_scope.
 
 (* the index-space theorems are shared by the three re-indexed spaces (functions, globals, memories) *)
@@ -15,6 +15,13 @@ Theorem C07_mapping_position :
   forall l p it, NoDup (map it_id l) -> nth_error l p = Some it -> lookup (mapping l) (it_id it) = Some (N.of_nat p).
 Proof. exact mapping_pos. Qed.
 Print Assumptions C07_mapping_position.
+
+(* over the regenerated tables: the 11 operators with a global_index field (global.get/set and the nine atomic
+   global operators) are exactly the classified and rewritten ones *)
+Theorem C07_global_operator_tables_exact :
+  missing ops_with_global_index refers_to_global_list = [] /\ missing refers_to_global_list ops_with_global_index = [].
+Proof. exact refers_to_global_complete. Qed.
+Print Assumptions C07_global_operator_tables_exact.
 
 (* D03: global exports are copied, not re-indexed *)
 Example C07_refuted_D03 :
